@@ -208,6 +208,12 @@ type MsgSpec struct {
 	WriterFault bool   `json:"writerFault,omitempty"`
 	WriterOff   int    `json:"writerOff,omitempty"`
 
+	// probe: a message built at send time from the metadata document the IdP served earlier in the run for the same host
+	ProbeEP      string `json:"probeEP,omitempty"` // sso | slo | attr
+	Probe        bool   `json:"probe,omitempty"`
+	PathOverride string `json:"pathOverride,omitempty"`
+	Unsigned     bool   `json:"unsigned,omitempty"` // probe: never sign, whatever is advertised
+
 	// raw
 	RawPath   string `json:"rawPath,omitempty"`
 	RawQuery  string `json:"rawQuery,omitempty"`
